@@ -105,6 +105,9 @@ fn compare_union(want: &ZoneModel, got: &Zone) -> Result<(), (String, String)> {
         let extra: Vec<_> = got_recs.iter().filter(|r| !want_recs.contains(r)).collect();
         let sig = if !missing.is_empty() && missing.iter().all(|r| r.wild) && extra.is_empty() {
             "merge-drops-wildcards"
+        } else if missing.is_empty() && extra.is_empty() {
+            // same set, different multiset: a record is stored more than once
+            "duplicates-not-removed"
         } else {
             "union-differs"
         };
